@@ -209,7 +209,16 @@ func runC15(r *ev.Run) {
 	r.SetDeadline(20 * 60 * 1e9)
 	r.Set("rule", "case = transaction with one or two named inserts (with and without explicit UUID) and a use of the name in one position (row value of every column kind, where on _uuid / uuid column / set, every mutation shape, wait), placed before or after the defining insert, plus the same text as string data, self and mutual references, conflicting claims; executed on the real server and compared with the reference model run with the UUIDs the server reported; non-trivial = the name is used in at least one UUID-typed position")
 	dbs := schemas.MustBuild(c15Schema, nil)
-	txns := c15Txns(level)
+	var txns []c15Txn
+	for i, nm := range c15Names {
+		for _, t := range c15Txns(level) {
+			if i > 0 {
+				t.name += fmt.Sprintf(" names=%s,%s", nm[0], nm[1])
+				t.ops = c15Rename(t.ops, nm[0], nm[1])
+			}
+			txns = append(txns, t)
+		}
+	}
 	str := func(s string) rm.Value { return rm.SetOf(rm.S(s)) }
 	load := []rm.Op{opInsert("A", c15E1, rm.Row{"name": str("e1")}), opInsert("A", c15E2, rm.Row{"name": str("e2")})}
 	par.For(len(txns), r.Expired, func(ti int) {
@@ -296,7 +305,8 @@ func runC15(r *ev.Run) {
 		}
 	})
 	// through the model API: a model whose _uuid field holds a name produces uuid-name
-	func() {
+	for _, nm := range c15Names {
+		name := nm[0]
 		l := logr.Discard()
 		tc, err := cache.NewTableCache(dbs.DBModel(), nil, &l)
 		if err != nil {
@@ -304,34 +314,34 @@ func runC15(r *ev.Run) {
 		}
 		api := client.VerifNewAPI(tc)
 		a := dbs.NewModel("A")
-		schemas.Set(a, "_uuid", "n1")
+		schemas.Set(a, "_uuid", name)
 		schemas.Set(a, "name", "via-create")
 		b := dbs.NewModel("B")
 		schemas.Set(b, "_uuid", "b1")
-		schemas.Set(b, "peer", []string{"n1"})
-		schemas.Set(b, "owner", map[string]string{"n1": "me"})
+		schemas.Set(b, "peer", []string{name})
+		schemas.Set(b, "owner", map[string]string{name: "me"})
 		ops, err := api.Create(a, b)
 		r.Add("evaluations", 1)
 		if err != nil {
-			r.Violation("c15.api.create-error", err.Error(), nil)
-			return
+			r.Violation("c15.api.create-error", fmt.Sprintf("name %q: %v", name, err), nil)
+			continue
 		}
 		s := sys.New(dbs)
 		res, terr := s.Transact(ops)
 		ok := terr == nil && len(res) == 2 && res[0].Error == "" && res[1].Error == ""
 		if !ok {
-			r.Violation("c15.api.rejected", fmt.Sprintf("Create(A{_uuid:n1}, B{peer:[n1], owner:{n1:me}}) rejected: %s %v", ev.J(res), terr), map[string]interface{}{"ops": ops})
-			return
+			r.Violation("c15.api.rejected", fmt.Sprintf("Create(A{_uuid:%[1]s}, B{peer:[%[1]s], owner:{%[1]s:me}}) rejected: %[2]s %[3]v", name, ev.J(res), terr), map[string]interface{}{"ops": ops})
+			continue
 		}
 		post := s.State()
 		au := res[0].UUID.GoUUID
 		bu := res[1].UUID.GoUUID
 		brow := post.T["B"][bu]
 		if post.T["A"][au] == nil || brow == nil || !brow["peer"].Equal(rm.SetOf(rm.U(au))) || !brow["owner"].Equal(rm.MapOf(rm.U(au), rm.S("me"))) {
-			r.Violation("c15.api.resolution", fmt.Sprintf("Create with named models: stored %s", post.Dump()), map[string]interface{}{"ops": ops})
+			r.Violation("c15.api.resolution", fmt.Sprintf("Create with models named %q: stored %s", name, post.Dump()), map[string]interface{}{"ops": ops})
 		}
 		_ = context.Background
-	}()
+	}
 	r.Set("transactions", len(txns))
 	r.Set("distinct_nontrivial", r.DistinctCount("nontrivial"))
 	r.Set("impl_reject_class_list", r.DistinctKeys("impl_reject_classes"))
@@ -362,3 +372,70 @@ func fillUUIDs(ops []rm.Op, res []ovsdb.OperationResult) []rm.Op {
 	}
 	return out
 }
+
+// c15Rename replaces the names n1 / n2 (as uuid atoms, as string data and as uuid-name) by another pair of names.
+func c15Rename(ops []rm.Op, a, b string) []rm.Op {
+	ren := func(x string) string {
+		switch x {
+		case "n1":
+			return a
+		case "n2":
+			return b
+		}
+		return x
+	}
+	atom := func(x rm.Atom) rm.Atom {
+		if x.K == 'u' || x.K == 's' {
+			x.S = ren(x.S)
+		}
+		return x
+	}
+	val := func(v rm.Value) rm.Value {
+		if v.IsMap {
+			kv := []rm.Atom{}
+			for k, x := range v.Map {
+				kv = append(kv, atom(k), atom(x))
+			}
+			return rm.MapOf(kv...)
+		}
+		var as []rm.Atom
+		for _, x := range v.Set {
+			as = append(as, atom(x))
+		}
+		return rm.SetOf(as...)
+	}
+	row := func(r rm.Row) rm.Row {
+		if r == nil {
+			return nil
+		}
+		o := rm.Row{}
+		for c, v := range r {
+			o[c] = val(v)
+		}
+		return o
+	}
+	out := make([]rm.Op, len(ops))
+	for i, op := range ops {
+		o := op
+		o.UUIDName = ren(op.UUIDName)
+		o.Row = row(op.Row)
+		o.Where = nil
+		for _, c := range op.Where {
+			o.Where = append(o.Where, rm.Cond{Col: c.Col, Fn: c.Fn, Val: val(c.Val)})
+		}
+		o.Muts = nil
+		for _, m := range op.Muts {
+			o.Muts = append(o.Muts, rm.Mut{Col: m.Col, Mutator: m.Mutator, Val: val(m.Val)})
+		}
+		o.Rows = nil
+		for _, r := range op.Rows {
+			o.Rows = append(o.Rows, row(r))
+		}
+		out[i] = o
+	}
+	return out
+}
+
+// c15Names: pairs of names; the later pairs differ only in ways a normalisation could erase (letter case, characters
+// outside [A-Za-z0-9_], a leading digit)
+var c15Names = [][2]string{{"n1", "n2"}, {"Row_A", "row_a"}, {"br-int", "br_int"}, {"0x", "_0x"}}
